@@ -144,3 +144,35 @@ pub fn replay_decode(case: &Value) {
         println!("expected: {e}");
     }
 }
+
+/// Boundary lattice of picture dimensions: every power of two up to 2^15 with both neighbours,
+/// three times every power of two, the named formats, and 65535. Engines cross it with itself
+/// and keep the pairs under their pixel cap, so that a fault tied to a joint condition on width
+/// and height (a product, a residue of the product, a size class) is inside the explored set
+/// rather than between two probes.
+pub fn dim_lattice() -> Vec<u16> {
+    let mut v: Vec<u32> = vec![1, 2, 3, 5, 65535, 120, 144, 160, 176, 240, 288, 320, 352, 576, 704, 1152, 1408];
+    for k in 3..=15u32 {
+        v.extend([(1 << k) - 1, 1 << k, (1 << k) + 1]);
+        if 3 << (k - 1) < 65536 {
+            v.push(3 << (k - 1));
+        }
+    }
+    v.sort();
+    v.dedup();
+    v.into_iter().map(|x| x as u16).collect()
+}
+
+/// All pairs of the lattice with at most `cap` pixels.
+pub fn size_lattice(cap: u64) -> Vec<(u16, u16)> {
+    let d = dim_lattice();
+    let mut out = vec![];
+    for &w in &d {
+        for &h in &d {
+            if w as u64 * h as u64 <= cap {
+                out.push((w, h));
+            }
+        }
+    }
+    out
+}
